@@ -132,6 +132,21 @@ func init() {
 	for _, id := range []string{"C07", "C03", "C02"} {
 		extendProp(id, mg, mgF, func(c *Ctx) { defer c.cleanup(); c.scanRun("machine-graph") })
 	}
+	const fsp = "fold-span: in the loops of the PHP 5 grammar that fold a list of links (`->b`, `[0]`, `()`) into an accumulated expression, every step computes the link's span from (accumulated expression, link) and does so before the accumulator is replaced by the link - computed afterwards the span runs from the link to itself and the node does not contain its first child (round 6 seed C05-18; 12 fold steps; no fixture grammar has a fold, the recorded seed is the positive example)."
+	for _, id := range []string{"C05", "C10"} {
+		extendProp(id, fsp, []report.Floor{{Rule: "fold-span", What: "fold-steps", Min: 10}},
+			func(c *Ctx) { defer c.cleanup(); c.flowRule("fold-span", flowRules["fold-span"]) })
+	}
+	extendProp("C04", "linear and order on both grammars: tokens appear in the tree once and in the slots whose declaration order is source order, so that walking the tree meets them in increasing offset order (round 6 seed C04-18: the loop that nests the `$` of `$$$a` flipped; the outermost node carried the last `$`).",
+		[]report.Floor{{Rule: "linear", What: "productions", Min: 1000}, {Rule: "order", What: "objects", Min: 900}},
+		func(c *Ctx) { defer c.cleanup(); c.flows_("linear", "order") })
+	extendProp("C11", "tree-readonly on the observer packages: printing, dumping, traversing and resolving write nothing that is reachable from the tree - in particular not the bytes of the source, which every token value aliases - so a second pipeline working on the same buffer or tree reads what it would read alone (round 6 seed C11-16: the resolver built a name in a buffer seeded with the first part's Value and appended into the caller's source).",
+		[]report.Floor{{Rule: "tree-readonly", What: "functions", Min: 650}},
+		func(c *Ctx) {
+			c.ssaRepo("tree-readonly", func(w *effects.World) *report.RuleResult {
+				return effects.TreeReadonly(w, "pkg/visitor/printer", "pkg/visitor/dumper", "pkg/visitor/traverser", "pkg/visitor/nsresolver", "pkg/visitor")
+			})
+		})
 	extendProp("C14", "presence-oracle: which slots of which node kinds a silently parsed tree may leave empty equals the reviewed table - a name node's kind is told by its tokens (a NameRelative has its `namespace` keyword, a NameFullyQualified its leading separator), and the resolver chooses the rule by kind (seed C14-13: `\\Vendor\\X` in a PHP 5 constant expression built as a NameRelative without the keyword, resolved against the current namespace).",
 		[]report.Floor{{Rule: "presence-oracle", What: "slots", Min: 1100}},
 		func(c *Ctx) { defer c.cleanup(); c.presenceOracle() })
